@@ -6,7 +6,7 @@ from pathlib import Path
 from typing import TYPE_CHECKING, Any, Callable, Iterable
 from json import JSONEncoder, dumps
 
-from jmc.compile.utils import clean_up_paren_token
+from jmc.compile.utils import clean_up_paren_token, convention_jmc_to_mc
 
 from .pack_version import PackVersion, PackVersionFeature
 from .tokenizer import Token, TokenType, Tokenizer
@@ -795,7 +795,9 @@ class DataPack:
                 ) from error
 
             if value.token_type == TokenType.KEYWORD:
-                func_map[num] = value.string, False
+                func = convention_jmc_to_mc(value, tokenizer, prefix)
+                self.functions_called[func] = (value, tokenizer, prefix)
+                func_map[num] = f"function {self.format_func_path(func)}", False
             elif value.token_type == TokenType.FUNC:
                 func_map[num] = (
                     "\n".join(self.parse_function_token(value, tokenizer, prefix)),
